@@ -60,7 +60,7 @@ go build ./... || { echo "SILENCE4 FIXTURE DOES NOT BUILD"; rm -rf $D; exit 2; }
 go test -vet=off -count=1 ./... 2>&1 | grep -v "no test files" | grep -v "^ok"
 rc=0
 for p in C01 C03 C06 C07 C12 C13 C14; do
-  out=$(VERIF_REPO=$D/repo VERIF_DIR=$D/v /verif/bin/pulsarcheck -property $p 2>&1); r=$?
+  out=$(VERIF_REPO=$D/repo VERIF_DIR=$D/v ${PULSARCHECK:-/verif/bin/pulsarcheck} -property $p 2>&1); r=$?
   if [ $r -ne 0 ]; then rc=1; echo "FALSE ALARM $p"; echo "$out" | grep -v "^VIOLATION" | head -${LINES_MAX:-4} | cut -c1-500; else echo "$p silent"; fi
 done
 rm -rf $D
